@@ -42,10 +42,11 @@ theorem C07_julia_unpack_invalid : (templateOf .jl).unpack .jl = .invalid := by 
     at any time and state returns exactly what `Model.__call__` returns — including when the model's cache
     cannot be built (same error) — for every content satisfying the decidable hypothesis `okC`:
     no surrogates / data, every variable has an equation and stoichiometries mention variables only (excludes
-    F-C07-3), parameters are plain (excludes F-C07-5; variables may be defined by initial assignments), names
-    are distinct (what `Model` enforces) and not of the form `d<x>dt`.  One further restriction is a limit of
-    this proof, not a finding class, and is covered by the correspondence harness only: stoichiometric
-    coefficients are numbers. -/
+    F-C07-3), names are distinct (what `Model` enforces) and not of the form `d<x>dt`.  Variables and
+    parameters may be defined by initial assignments (parameters since `fix: generated model code assigns
+    parameters that are defined by an initial assignment`; the hypothesis "parameters are plain" is gone).
+    One further restriction is a limit of this proof, not a finding class, and is covered by the correspondence
+    harness only: stoichiometric coefficients are numbers. -/
 theorem C07_equiv_partial (c : Content) (L : Lang) (t : Rat) (xs : List Rat)
     (hL : L ≠ .jl) (hok : okC c = true) (hxs : xs.length = c.vars.length) :
     genRun [] c L [] t xs [] = callRhs c t xs :=
@@ -53,11 +54,20 @@ theorem C07_equiv_partial (c : Content) (L : Lang) (t : Rat) (xs : List Rat)
 
 /-- **Free parameters.**  Requested free parameters become extra inputs: calling the generated function with
     values `ps` for them returns what the model returns after those parameters are set to `ps`
-    (`update_parameters`), for every content in `okC` and every list of distinct plain parameters. -/
+    (`update_parameters`), for every content in `okC` whose parameters are all plain and every list of distinct
+    parameters. -/
 theorem C07_equiv_free_partial (c : Content) (L : Lang) (free : List Name) (t : Rat) (xs ps : List Rat)
-    (hL : L ≠ .jl) (hok : okC c = true) (hf : freeOkB c free ps = true) (hxs : xs.length = c.vars.length) :
+    (hL : L ≠ .jl) (hok : okC c = true) (hia : noIA c.pars = true) (hf : freeOkB c free ps = true)
+    (hxs : xs.length = c.vars.length) :
     genRun [] c L free t xs ps = callRhs (setPars c free ps) t xs :=
-  equiv_free c L free t xs ps hL (OkV.of_okC hok) (FreeOk.of_B hf) hxs
+  equiv_free c L free t xs ps hL (OkV.of_okC hok) hia (FreeOk.of_B hf) hxs
+
+/-- … and when some parameter is defined by an initial assignment, free parameters are refused: the constants
+    written for such parameters are only valid for the model's own parameter values -/
+theorem C07_free_with_ia_parameter_refused (c : Content) (L : Lang) (free : List Name) (cache : Cache)
+    (hcc : createCache c = .ok cache) (hfree : free ≠ []) (hia : noIA c.pars = false) :
+    genModel [] c L free = .error (.other "NotImplementedError") :=
+  genModel_free_refused c L free hcc hfree hia
 
 example : freeOkB wOk ["k"] [5] = true
     ∧ resEq (genRun [] wOk .ts ["k"] 1 [3, 5] [5]) (callRhs (setPars wOk ["k"] [5]) 1 [3, 5]) = true
@@ -91,11 +101,19 @@ theorem C07_missing_equation_witness :
     ∧ isErrOther "ReturnTypeMismatch" (genRun [] wNoEq .rs [] 0 [3, 1] []) = true
     ∧ okC wNoEq = false := by decide +kernel
 
-/-- F-C07-5: a parameter defined by an initial assignment is never assigned in the generated code -/
+/-- former F-C07-5 witness (repaired): a parameter defined by an initial assignment is written as a constant
+    with the value the model resolved for it; the witness is now inside the hypothesis and the outputs agree.
+    Second model: the parameter reads a variable's initial value, a derived parameter and a variable's initial
+    assignment read the parameter. -/
 theorem C07_ia_parameter_witness :
     resEq (callRhs wIAPar 0 [3, 1]) (.ok [-12, 12]) = true
-    ∧ isNameError (genRun [] wIAPar .py [] 0 [3, 1] []) = true
-    ∧ okC wIAPar = false := by decide +kernel
+    ∧ resEq (genRun [] wIAPar .py [] 0 [3, 1] []) (.ok [-12, 12]) = true
+    ∧ okC wIAPar = true ∧ okC wIAPar2 = true
+    ∧ resEq (genRun [] wIAPar2 .rs [] 1 [3, 5] []) (callRhs wIAPar2 1 [3, 5]) = true
+    ∧ isErrOther "NotImplementedError" (genRun [] wIAPar .py ["k"] 0 [3, 1] [5]) = true := by decide +kernel
+
+example : genRun [] wIAPar2 .ts [] 1 [3, 5] [] = callRhs wIAPar2 1 [3, 5] :=
+  C07_equiv_partial wIAPar2 .ts 1 [3, 5] (by decide) (by decide +kernel) rfl
 
 /-- F-C07-4: every Julia text with a variable is rejected before it runs -/
 theorem C07_julia_witness : isErrOther "SyntaxError" (genRun [] wOk .jl [] 1 [3, 5] []) = true := by
